@@ -89,6 +89,389 @@ func ctrlRefs(fl Flavour, class string, variant int) []Ref {
 	return append(extra, c...)
 }
 
+// ---------------------------------------------------------------------------------------------
+// Dimensions the model claims to be IRRELEVANT.
+//
+// The abstract decision table (Table) distinguishes objects only through the predicates the model
+// reads: is-controller / has-controller / controlled-by-a-declared-previous-revision (group, kind,
+// name and uid of the controller reference against the declared list), recorded revision,
+// collisionProtection, forced adoption (env / package label "package-operator").  Everything else
+// that is PKO-specific is claimed to have no influence on any decision.  That claim is only as
+// good as the variety of the concrete realisations of each abstract row, so the realisations vary
+// all of it (Irr); a dependency of the code on any of these shows up as a realisation whose trace
+// departs from the model and whose write the C01 monitor cannot justify.
+
+// Irr is one assignment of the irrelevant dimensions.
+type Irr struct {
+	OwnerInst, ObjInst string // package-instance label on the owner / on the stored object ("" = absent)
+	OwnerPkg, ObjPkg   string // package label (the value "package-operator" ON THE OBJECT is the table's `forced`)
+	ObjX               int    // further PKO labels + annotations on the stored object (ObjExtras)
+	OwnerX             int    // further PKO labels + annotations on the owner (OwnerExtras)
+	PrevX              int    // labels on the declared previous revisions (PrevExtras)
+	Kind               int    // kind of the controller for the classes "undeclared" / "foreign"
+	Ident              int    // name / uid of an undeclared controller relative to the declared ones
+	Extra              int    // further non-controller owner references
+	Front              bool   // controller reference first / last in the list
+	Other              int    // what the ownership list the strategy does NOT read says
+	NoCache            bool   // object lacks the cache label (uncached read path)
+	Drift              bool   // payload differs from the desired one
+}
+
+// (owner, object) values of a label: absent / equal / different, independently
+var InstRels = [][2]string{{"", ""}, {"inst-a", "inst-a"}, {"", "inst-a"}, {"inst-a", "inst-b"}, {"inst-a", ""}, {"", "inst-b"}}
+var PkgRels = [][2]string{
+	{"", ""}, {"pkg-a", "pkg-a"}, {"pkg-a", "pkg-b"}, {"package-operator", ""},
+	{"", "pkg-a"}, {"pkg-a", ""}, {"package-operator", "pkg-a"}, {"", "pkg-b"}, {"package-operator", "pkg-b"},
+}
+
+type Extras struct{ Labels, Ann map[string]string }
+
+var ObjExtras = []Extras{
+	{},
+	{
+		Labels: map[string]string{PkoGroup + "/phase-class": "default", PkoGroup + "/object-deployment": "own"},
+		Ann:    map[string]string{PkoGroup + "/collision-protection": "None", PkoGroup + "/phase": "p"},
+	},
+	{
+		Labels: map[string]string{PkoGroup + "/cached": "True", PkoGroup + "/object-set": "os1", RevAnn: "1", PkoGroup + "/owner": "own"},
+		Ann: map[string]string{PkoGroup + "/condition-map": "Available => Ready", PkoGroup + "/package-source-image": "quay.io/x/y:v1",
+			PkoGroup + "/package-config": "{}", PkoGroup + "/force-adoption": "true", PkoGroup + "/previous": "os1", PkoGroup + "/owner": "own"},
+	},
+}
+
+var OwnerExtras = []Extras{
+	{},
+	{
+		Labels: map[string]string{PkoGroup + "/object-deployment": "dep", PkoGroup + "/phase-class": "x"},
+		Ann:    map[string]string{PkoGroup + "/collision-protection": "None", RevAnn: "9"},
+	},
+	{
+		Labels: map[string]string{PkoGroup + "/cache": "True", PkoGroup + "/adopt": "true"},
+		Ann:    map[string]string{PkoGroup + "/force-adoption": "true", PkoGroup + "/change-cause": "x", OwnersAnn: "[]"},
+	},
+}
+
+var PrevExtras = []map[string]string{nil, {InstLabel: "inst-a", PkgLabel: "pkg-a"}, {InstLabel: "inst-b"}}
+
+// kinds an undeclared package-operator.run controller can have
+var UndeclaredKinds = []string{"ObjectSet", "ClusterObjectSet", "ObjectSetPhase", "ClusterObjectSetPhase"}
+
+const NIdent = 4
+
+// controllers that are no ObjectSet / ObjectSetPhase of package-operator.run at all
+var ForeignCtrls = []Ref{
+	{Group: "apps", Kind: "Deployment", Name: "dep", UID: "u-dep", Ctrl: true},
+	{Group: "", Kind: "ConfigMap", Name: "cm0", UID: "u-cm0", Ctrl: true},
+	{Group: PkoGroup, Kind: "ObjectDeployment", Name: "od", UID: "u-od", Ctrl: true},
+	{Group: PkoGroup, Kind: "Package", Name: "pkg", UID: "u-pkg", Ctrl: true},
+	{Group: PkoGroup, Kind: "ObjectSlice", Name: "os1", UID: "u-os1", Ctrl: true},
+	{Group: "other.io", Kind: "ObjectSetPhase", Name: "ph1", UID: "u-ph1", Ctrl: true},
+}
+
+const NExtra = 4
+const NOther = 4
+
+func isPhaseKind(k string) bool { return strings.HasSuffix(k, "Phase") }
+
+// undeclaredRef: a package-operator.run ObjectSet(Phase) controller that is NOT one of the declared
+// previous revisions (basePrev: sets os1/u-os1, os2/u-os2, remote phase ph1/u-ph1 of os1) —
+// because name, uid or kind differ.
+func undeclaredRef(fl Flavour, kind string, ident int) Ref {
+	pk := prevKind(fl)
+	declName, declUID, otherName, otherUID := "os1", "u-os1", "ph1", "u-ph1"
+	declared := kind == pk
+	fresh, freshOther := "osX", "osY"
+	if isPhaseKind(kind) {
+		declName, declUID, otherName, otherUID = "ph1", "u-ph1", "os1", "u-os1"
+		declared = kind == phaseKindFor(pk)
+		fresh, freshOther = "phX", "phY"
+	}
+	r := Ref{Group: PkoGroup, Kind: kind, Ctrl: true}
+	switch ident % NIdent {
+	case 0: // unrelated name and uid
+		r.Name, r.UID = fresh, "u-"+fresh
+	case 1: // name of a declared one, other uid
+		r.Name, r.UID = declName, "u-old"
+	case 2: // uid of a declared one, other name
+		r.Name, r.UID = freshOther, declUID
+	case 3: // name AND uid of a declared one, but the kind is not the declared one's
+		if declared {
+			r.Name, r.UID = otherName, otherUID
+		} else {
+			r.Name, r.UID = declName, declUID
+		}
+	}
+	return r
+}
+
+// ctrlRefsX is ctrlRefs with the irrelevant dimensions taken from x.
+func ctrlRefsX(fl Flavour, class string, x Irr) []Ref {
+	pk := prevKind(fl)
+	var c []Ref
+	switch class {
+	case "none":
+	case "own":
+		c = []Ref{{Group: PkoGroup, Kind: fl.OwnerKind, Name: "own", UID: "u-own", Ctrl: true}}
+	case "ownPlain":
+		c = []Ref{{Group: PkoGroup, Kind: fl.OwnerKind, Name: "own", UID: "u-own"}}
+		switch x.Kind % 3 {
+		case 1:
+			c = append(c, ForeignCtrls[x.Ident%len(ForeignCtrls)])
+		case 2:
+			c = append(c, undeclaredRef(fl, UndeclaredKinds[x.Ident%len(UndeclaredKinds)], 0))
+		}
+	case "prevDirect":
+		c = []Ref{{Group: PkoGroup, Kind: pk, Name: "os1", UID: "u-os1", Ctrl: true}}
+	case "prev2":
+		c = []Ref{{Group: PkoGroup, Kind: pk, Name: "os2", UID: "u-os2", Ctrl: true}}
+	case "prevRemote":
+		c = []Ref{{Group: PkoGroup, Kind: phaseKindFor(pk), Name: "ph1", UID: "u-ph1", Ctrl: true}}
+	case "undeclared":
+		c = []Ref{undeclaredRef(fl, UndeclaredKinds[x.Kind%len(UndeclaredKinds)], x.Ident)}
+	case "foreign":
+		c = []Ref{ForeignCtrls[x.Kind%len(ForeignCtrls)]}
+	case "wrongGroup":
+		c = []Ref{{Group: "other.io", Kind: pk, Name: "os1", UID: "u-os1", Ctrl: true}}
+	case "staleUID":
+		c = []Ref{{Group: PkoGroup, Kind: pk, Name: "os1", UID: "u-old", Ctrl: true}}
+	}
+	var extra []Ref
+	switch x.Extra % NExtra {
+	case 1:
+		extra = []Ref{{Group: "apps", Kind: "ReplicaSet", Name: "rs", UID: "u-rs"}}
+	case 2:
+		extra = []Ref{{Group: PkoGroup, Kind: pk, Name: "os2", UID: "u-os2"}, {Group: "", Kind: "ConfigMap", Name: "cm", UID: "u-cm"}}
+	case 3: // a declared previous revision is a plain owner, somebody else controls
+		extra = []Ref{{Group: PkoGroup, Kind: pk, Name: "os1", UID: "u-os1"}, {Group: PkoGroup, Kind: phaseKindFor(pk), Name: "ph1", UID: "u-ph1"}}
+	}
+	// owner references of one object carry distinct uids
+	var ex []Ref
+	for _, e := range extra {
+		dup := false
+		for _, r := range c {
+			dup = dup || r.UID == e.UID
+		}
+		if !dup {
+			ex = append(ex, e)
+		}
+	}
+	if x.Front {
+		return append(c, ex...)
+	}
+	return append(ex, c...)
+}
+
+// storeObjX: the pre-existing object of abstract class (class, rev) realised with x.
+func storeObjX(fl Flavour, p PObj, class, rev string, x Irr) SObj {
+	ns := p.NS
+	if ns == "" {
+		ns = ownerNS(fl)
+	}
+	if p.Kind == "ClThing" {
+		ns = ""
+	}
+	o := SObj{Kind: p.Kind, NS: ns, Name: p.Name, Rev: rev, Cache: !x.NoCache, Payload: p.Payload, ObsGen: -1,
+		Pkg: x.ObjPkg, Inst: x.ObjInst}
+	ox := ObjExtras[x.ObjX%len(ObjExtras)]
+	o.XLabels, o.XAnn = ox.Labels, ox.Ann
+	refs := ctrlRefsX(fl, class, x)
+	pk := prevKind(fl)
+	// the list the strategy does not look at may say anything
+	var other []Ref
+	switch x.Other % NOther {
+	case 1:
+		other = []Ref{{Group: "apps", Kind: "Deployment", Name: "dep", UID: "u-dep", Ctrl: true}}
+	case 2:
+		other = []Ref{{Group: PkoGroup, Kind: pk, Name: "os1", UID: "u-os1", Ctrl: true}}
+	case 3:
+		other = []Ref{{Group: PkoGroup, Kind: pk, Name: "osX", UID: "u-osX", Ctrl: true}, {Group: PkoGroup, Kind: pk, Name: "os2", UID: "u-os2"}}
+	}
+	if isAnnotation(fl) {
+		o.AnnOwners, o.Owners = refs, other
+	} else {
+		o.Owners, o.AnnOwners = refs, other
+	}
+	if x.Drift {
+		o.Payload = p.Payload + "-drift"
+	}
+	return o
+}
+
+func applyOwnerIrr(o *OwnerSpec, prev []PrevSpec, x Irr) {
+	o.InstLabel = x.OwnerInst
+	if x.OwnerPkg != "" {
+		o.PkgLabel = x.OwnerPkg
+	}
+	ox := OwnerExtras[x.OwnerX%len(OwnerExtras)]
+	o.XLabels, o.XAnn = ox.Labels, ox.Ann
+	for i := range prev {
+		prev[i].Labels = PrevExtras[x.PrevX%len(PrevExtras)]
+	}
+}
+
+// splitmix64: a tiny deterministic stream (independent of VERIF_SEED) for mixing the dimensions
+type mix uint64
+
+func (m *mix) n(k int) int {
+	*m += 0x9e3779b97f4a7c15
+	z := uint64(*m)
+	z = (z ^ (z >> 30)) * 0xbf58476d1ce4e5b9
+	z = (z ^ (z >> 27)) * 0x94d049bb133111eb
+	z ^= z >> 31
+	return int(z % uint64(k))
+}
+
+type picker interface{ n(k int) int }
+type rngPicker struct{ r *rand.Rand }
+
+func (p rngPicker) n(k int) int { return p.r.Intn(k) }
+
+// fillIrr draws the dimensions that are not fixed by the caller.
+func fillIrr(p picker, x *Irr) {
+	x.ObjX, x.OwnerX, x.PrevX = p.n(len(ObjExtras)), p.n(len(OwnerExtras)), p.n(len(PrevExtras))
+	x.Extra, x.Other = p.n(NExtra), p.n(NOther)
+	x.Front = p.n(2) == 0
+	x.NoCache = p.n(5) == 0
+	x.Drift = p.n(6) == 0
+}
+
+// RandomIrr draws every dimension.
+func RandomIrr(p picker) Irr {
+	var x Irr
+	ir, pr := InstRels[p.n(len(InstRels))], PkgRels[p.n(len(PkgRels))]
+	x.OwnerInst, x.ObjInst, x.OwnerPkg, x.ObjPkg = ir[0], ir[1], pr[0], pr[1]
+	x.Kind, x.Ident = p.n(12), p.n(12)
+	fillIrr(p, &x)
+	return x
+}
+
+// realise builds the single-object scenario of one abstract row with realisation x.
+func realise(fl Flavour, mode, class, rev, cp string, force int, name string, garbagePrev bool, x Irr) Scn {
+	p := PObj{Kind: "NsThing", Name: name, CP: cp, Payload: "x", DryRun: "accept"}
+	if !fl.NSOwner {
+		p.NS = "ns2"
+	}
+	so := storeObjX(fl, p, class, rev, x)
+	if force == 2 {
+		so.Pkg = "package-operator"
+	}
+	s := Scn{Flavour: fl.Name, Mode: mode, Force: force == 1, Owner: baseOwner(fl), Prev: basePrev(fl),
+		Objects: []PObj{p}, Store: []SObj{so}}
+	applyOwnerIrr(&s.Owner, s.Prev, x)
+	if garbagePrev {
+		s.Prev = append([]PrevSpec{{Kind: prevKind(fl), Name: "", UID: ""}}, s.Prev...)
+	}
+	return s
+}
+
+// TableX is Table with k >= 3 realisations per abstract row that vary the irrelevant dimensions:
+// realisations 0..2 are fixed (three different instance-label relations in every row, the other
+// dimensions mixed deterministically), the further ones are drawn from r.
+func TableX(fl Flavour, r *rand.Rand, k int) []Scn {
+	var out []Scn
+	row := 0
+	for _, mode := range []string{"reconcile", "teardown"} {
+		for _, class := range CtrlClasses {
+			for _, rev := range RevClasses {
+				for _, cp := range CPs {
+					for force := 0; force < 3; force++ {
+						if mode == "teardown" && (cp != "Prevent" || force != 0) {
+							continue
+						}
+						for j := 0; j < k; j++ {
+							var x Irr
+							if j < 3 {
+								m := mix(uint64(row)*16 + uint64(j) + 1)
+								ir := InstRels[(row+2*j)%len(InstRels)]
+								pr := PkgRels[(row/2+3*j)%len(PkgRels)]
+								x.OwnerInst, x.ObjInst, x.OwnerPkg, x.ObjPkg = ir[0], ir[1], pr[0], pr[1]
+								x.Kind, x.Ident = row/3+j, row/12+j
+								fillIrr(&m, &x)
+							} else {
+								x = RandomIrr(rngPicker{r})
+							}
+							out = append(out, realise(fl, mode, class, rev, cp, force, []string{"a", "b", "c"}[j%3], j%3 == 2, x))
+						}
+						row++
+					}
+				}
+			}
+		}
+	}
+	return out
+}
+
+// CtrlRealisation: one concrete controller state of an abstract controller class.
+type CtrlRealisation struct {
+	Class       string
+	Kind, Ident int
+}
+
+// CtrlRealisations enumerates every controller class with every kind / identity it can be realised by.
+func CtrlRealisations() []CtrlRealisation {
+	var out []CtrlRealisation
+	for _, class := range CtrlClasses {
+		switch class {
+		case "undeclared":
+			for k := range UndeclaredKinds {
+				for id := 0; id < NIdent; id++ {
+					out = append(out, CtrlRealisation{class, k, id})
+				}
+			}
+		case "foreign":
+			for k := range ForeignCtrls {
+				out = append(out, CtrlRealisation{class, k, 0})
+			}
+		case "ownPlain":
+			for k := 0; k < 3; k++ {
+				out = append(out, CtrlRealisation{class, k, k})
+			}
+		default:
+			out = append(out, CtrlRealisation{class, 0, 0})
+		}
+	}
+	return out
+}
+
+// IrrelevanceTable: EXHAUSTIVE product of controller realisation x instance-label relation x
+// collisionProtection x revision class (reconcile; teardown with the label relations only).
+// full: also x package-label relation (all 9), every collisionProtection value and revision class;
+// otherwise the package-label relation rotates through 4 values inside every (controller
+// realisation, instance-label relation) block, so that all triples of the three occur.
+// The remaining irrelevant dimensions are mixed deterministically.
+func IrrelevanceTable(fl Flavour, full bool) []Scn {
+	pkgRels, cps, revs := [][2]string{{}}, []string{"Prevent", "IfNoController", "None"}, []string{"1", "3", "4"}
+	if full {
+		pkgRels, cps, revs = PkgRels, CPs, RevClasses
+	}
+	var out []Scn
+	n := 0
+	for _, mode := range []string{"reconcile", "teardown"} {
+		for _, cr := range CtrlRealisations() {
+			for _, ir := range InstRels {
+				for _, pr := range pkgRels {
+					for _, cp := range cps {
+						for _, rev := range revs {
+							if mode == "teardown" && (cp != "Prevent" || rev != "1") {
+								continue
+							}
+							n++
+							if !full {
+								pr = PkgRels[n%4]
+							}
+							m := mix(uint64(n) * 977)
+							x := Irr{OwnerInst: ir[0], ObjInst: ir[1], OwnerPkg: pr[0], ObjPkg: pr[1], Kind: cr.Kind, Ident: cr.Ident}
+							fillIrr(&m, &x)
+							out = append(out, realise(fl, mode, cr.Class, rev, cp, 0, []string{"a", "b", "c"}[n%3], n%7 == 0, x))
+						}
+					}
+				}
+			}
+		}
+	}
+	return out
+}
+
 var DryRunVerdicts = []string{"reject", "reject:Forbidden", "reject:BadRequest", "reject:Conflict", "reject:Unauthorized",
 	"reject:MethodNotAllowed", "reject:TooLarge", "error", "error:TooManyRequests", "error:Timeout", "error:ServerTimeout",
 	"error:ServiceUnavailable", "error:Gone"}
@@ -228,6 +611,16 @@ func Random(r *rand.Rand, fl Flavour) Scn {
 		s.Owner.PkgLabel = pick(r, []string{"pkg-a", "package-operator"})
 	}
 	s.Force = r.Intn(12) == 0
+	// half of the phases also vary what the model claims to be irrelevant
+	irr := r.Intn(2) == 0
+	var ox Irr
+	if irr {
+		ox = RandomIrr(rngPicker{r})
+		if r.Intn(3) != 0 {
+			ox.OwnerPkg = s.Owner.PkgLabel
+		}
+		applyOwnerIrr(&s.Owner, s.Prev, ox)
+	}
 	switch r.Intn(6) {
 	case 0:
 		s.Prev = nil
@@ -261,6 +654,14 @@ func Random(r *rand.Rand, fl Flavour) Scn {
 		s.Objects = append(s.Objects, p)
 		if r.Intn(4) != 0 && p.Kind != "Ghost" {
 			so := storeObjFor(fl, p, pick(r, CtrlClasses), pick(r, RevClasses), r.Intn(60))
+			if irr {
+				x := RandomIrr(rngPicker{r})
+				x.OwnerInst = ox.OwnerInst
+				if r.Intn(2) == 0 { // objects of one phase tend to share their labels
+					x.ObjInst, x.ObjPkg = pick(r, []string{ox.OwnerInst, ox.ObjInst}), ox.ObjPkg
+				}
+				so = storeObjX(fl, p, pick(r, CtrlClasses), pick(r, RevClasses), x)
+			}
 			if r.Intn(8) == 0 {
 				so.Pkg = pick(r, []string{"package-operator", "pkg-a"})
 			}
@@ -335,6 +736,41 @@ func Tags(s Scn, out string) []string {
 	}
 	if s.Force {
 		t = append(t, "force")
+	}
+	// distribution of the dimensions the model claims to be irrelevant (first stored object)
+	if len(s.Store) > 0 {
+		o := s.Store[0]
+		rel := func(a, b string) string {
+			switch {
+			case a == "" && b == "":
+				return "none"
+			case a == "":
+				return "objOnly"
+			case b == "":
+				return "ownerOnly"
+			case a == b:
+				return "equal"
+			}
+			return "different"
+		}
+		t = append(t, "inst="+rel(s.Owner.InstLabel, o.Inst), "pkg="+rel(s.Owner.PkgLabel, o.Pkg))
+		refs := o.Owners
+		if strings.HasPrefix(s.Flavour, "multicluster") {
+			refs = o.AnnOwners
+		}
+		ck := "-"
+		for _, r := range refs {
+			if r.Ctrl {
+				ck = r.Group + "/" + r.Kind
+			}
+		}
+		t = append(t, "ctrl="+ck)
+		if len(o.XAnn)+len(o.XLabels) > 0 {
+			t = append(t, "objExtras")
+		}
+	}
+	if len(s.Owner.XAnn)+len(s.Owner.XLabels) > 0 {
+		t = append(t, "ownerExtras")
 	}
 	return t
 }
